@@ -205,6 +205,7 @@ def check_real_add(case, col, derived):
     fac = iso.get_iso9660_facade() if via == 'iso9660-facade' else None
     added = []
     seen = set()
+    seen_rr = set()
     for i, ((name, kind), d) in enumerate(zip(case['entries'], derived)):
         if d is None:
             continue
@@ -213,8 +214,20 @@ def check_real_add(case, col, derived):
             continue
         seen.add(d)
         k = 'dir' if kind == 'dir' else 'file'
+        if fac:
+            # the ISO9660 facade derives the Rock Ridge name from the ISO name with the
+            # same helpers; two entries may not share it (no collision numbering)
+            try:
+                rrd = compose(level, k, d, 'facade')
+            except Exception:
+                rrd = None   # reported by the add below
+            if rrd is not None and rrd in seen_rr:
+                col.bump('skipped:derived-rr-collision')
+                continue
+            seen_rr.add(rrd)
         b = d.encode('utf-8')
-        v = legal.legal_iso_dir(b, level) if k == 'dir' else legal.legal_iso_file(b, level)
+        su = legal.RR_MIN_SYSTEM_USE if fac else 0   # the facade variant runs on a Rock Ridge image
+        v = legal.legal_iso_dir(b, level, su) if k == 'dir' else legal.legal_iso_file(b, level, su)
         shim.reset(i + 1)
         try:
             if k == 'dir':
@@ -415,7 +428,8 @@ def check_facade(case, col, derived):
         dl = ''
         if ns == 'rr':
             b = d.encode('utf-8')
-            v = legal.legal_iso_dir(b, level) if kind == 'dir' else legal.legal_iso_file(b, level)
+            su = legal.RR_MIN_SYSTEM_USE
+            v = legal.legal_iso_dir(b, level, su) if kind == 'dir' else legal.legal_iso_file(b, level, su)
             dl = '/derived-%s' % ('legal' if v[0] else ('illegal:' if v[0] is False else '') + v[1].replace(' ', '-'))
         try:
             add()
